@@ -247,6 +247,16 @@ func runC10(c *mon.Ctx) {
 			// as applications get it: the font is read from a file first
 			f = readBack(k, f)
 		}
+		// now and then a character map subtable in a format the library keeps
+		// but does not decode
+		var exotic *c10exotic
+		if f.CMapTable != nil && f.NumGlyphs() >= 3 && r.IntN(5) == 0 {
+			x := c10exoticMake(r, f.NumGlyphs())
+			if _, taken := f.CMapTable[x.key]; !taken {
+				f.CMapTable[x.key] = x.data
+				exotic = &x
+			}
+		}
 		if go_, ok := f.Outlines.(*glyf.Outlines); ok {
 			switch r.IntN(16) {
 			case 0:
@@ -474,6 +484,47 @@ func runC10(c *mon.Ctx) {
 				}
 			}
 			k.Class("cmap-compared")
+		}
+		// (c') a subtable the library does not decode: left out, or right
+		// under the new numbering
+		if exotic != nil {
+			data, kept := sub.CMapTable[exotic.key]
+			if !kept {
+				k.Class("cmap-undecoded-subtable:left-out")
+			} else {
+				oldM, _ := c10exoticDecode(exotic.kind, exotic.data)
+				newM, ok := c10exoticDecode(exotic.kind, data)
+				k.Eval()
+				if !ok {
+					k.Fail("mismatch", "cmap-undecoded-subtable:damaged", "the subset carries the %s, but not in a form that can be decoded (%d bytes) (%s)", exotic, len(data), desc)
+					return
+				}
+				codes := make([]uint64, 0, len(newM))
+				for cde := range newM {
+					codes = append(codes, cde)
+				}
+				sort.Slice(codes, func(i, j int) bool { return codes[i] < codes[j] })
+				for _, cde := range codes {
+					ng, og := newM[cde], oldM[cde]
+					want, retained := inv[int(og)]
+					switch {
+					case og == 0:
+						k.Fail("mismatch", "cmap-undecoded-subtable:spurious", "the %s of the subset maps code %#x to glyph %d, the original does not map it (%s)", exotic, cde, ng, desc)
+						return
+					case int(ng) >= m:
+						k.Fail("mismatch", "cmap-undecoded-subtable:stale-glyph-index", "the %s of the subset maps code %#x to glyph %d of %d (original: glyph %d) (%s)", exotic, cde, ng, m, og, desc)
+						return
+					case retained && int(ng) != want:
+						k.Fail("mismatch", "cmap-undecoded-subtable:stale-glyph-index", "the %s of the subset maps code %#x to glyph %d; the original maps it to glyph %d, which is glyph %d of the subset (%s)", exotic, cde, ng, og, want, desc)
+						return
+					case !retained && unique(glyph.ID(og)) && !ambiguous:
+						k.Fail("mismatch", "cmap-undecoded-subtable:maps-dropped-glyph", "the %s of the subset maps code %#x to glyph %d; the original maps it to glyph %d, which is not retained (%s)", exotic, cde, ng, og, desc)
+						return
+					}
+				}
+				k.Class("cmap-undecoded-subtable:kept-and-right")
+			}
+			k.Class("cmap-undecoded-subtable:" + exotic.kind)
 		}
 		// (d) built-in encoding
 		if oo, ok := f.Outlines.(*cff.Outlines); ok && oo.Encoding != nil {
@@ -812,7 +863,7 @@ func runC10(c *mon.Ctx) {
 		}
 		k.Class("cff-outlines-subset:" + info.Kind)
 	})
-	c.Require("callers-list-reused", "list:just-below-256", "list:ligature-chain-components-only", "kind=glyf", "kind=cff", "kind=cid", "cmap-compared", "encoding-compared", "kerning-compared", "gsub-rules-compared",
+	c.Require("cmap-undecoded-subtable:format13", "cmap-undecoded-subtable:format10", "cmap-undecoded-subtable:format14", "cmap-undecoded-subtable:format0-mac-japanese", "callers-list-reused", "list:just-below-256", "list:ligature-chain-components-only", "kind=glyf", "kind=cff", "kind=cid", "cmap-compared", "encoding-compared", "kerning-compared", "gsub-rules-compared",
 		"written-and-read-back", "original-font-unchanged", "extras-appended:glyf", "cff-outlines-subset:cff", "cff-outlines-subset:cid")
 }
 
